@@ -201,6 +201,8 @@ fn gen_program(r: &mut Rng) -> Value {
     // sessions and the real binary have neither a simulated host nor a simulated stdin
     g.use_run = false;
     g.use_stdin = false;
+    // the playground's arenas are 16 MiB: keep programs small enough to fit
+    g.big_strings = false;
     let mut p = g.program();
     let mut what = "plain";
     if r.chance(45) {
